@@ -13,37 +13,49 @@ COQ_IMPORTS = ("From Synnax Require Import Common.Base Cesium.FsLog Cesium.Crash
                "From Coq Require Import NArith ZArith.")
 COQ_EXTRA = "Open Scope N_scope."
 CASE_TYPE = "case_t"
-COUNTS = {"quick": 36, "thorough": 400}
+COUNTS = {"quick": 36, "thorough": 240}
 SHARD = 3
 PROCS = 8
 HARNESS_TIMEOUT = 1500
 COQ_TIMEOUT = 1500
-OPS_KEY = "ops"
+# check.py's generic shrinker re-runs every candidate through the harness and Coq (hundreds of crash images
+# each): scripts are generated small (<= 25 operations) instead, and failing ones are reported as they are.
+OPS_KEY = "_unshrunk"
 KNOWN_DIR = os.path.join(vlib.ROOT, "corpus", PID, "known")
 
-RULE = ("operation scripts over 1-2 index groups (index + 0-2 int64 data channels): channel creation, writers in "
-        "always-persist / lazy-persist / manual-commit mode (one writer per channel at a time), 1-4 samples per write, "
-        "commits, closes, time-range deletes with bounds on / between / outside samples, clean reopen, synchronous GC "
-        "(threshold 0 or 0.2), rollover through small file caps, channel deletion and re-creation, plus a malformed "
-        "share (overlapping writer, duplicate create, inverted delete). Every prefix of the recorded mutation log is a "
-        "crash image (quick: plus 3-9 torn lengths per write, thorough: every byte). Each image is reopened twice "
-        "(cesium.Open and domain.Open per directory), read back, and a follow-up write + reads run on it. "
-        "Non-trivial = script whose log has >= 2 index persists and >= 1 of {delete, gc file swap, rollover, lazy close, "
-        "channel delete}; distinct by hash.")
-TRUSTED = ["hook cesium/export_verif_c02.go (VerifC02GC = the private garbageCollect, synchronous)",
-           "recording FS wrapper around x/io/fs MemFS inside the harness (logs create/write/writeat/truncate/rename/"
-           "remove/mkdir in issue order, rebuilds images by replaying a prefix)",
-           "runner/props/C02.py derives each channel's domain-level history (commit ends, delete offsets) from the "
-           "script; a wrong derivation shows as a log mismatch, it cannot hide one"]
-ASSUMES = ["process-crash model: completed file-system calls survive, no reordering (as the property states)",
-           "file sizes and offsets stay below 2^32, file keys below 2^16, counter below 255 for torn counter writes",
-           "delete offsets resolved by the unary layer are operation arguments of the model (any values)",
+RULE = ("operation scripts over 1-2 index groups (index channel + 0-2 int64 data channels): channel creation, writers in "
+        "always-persist / lazy-persist / manual-commit mode (one writer per channel at a time, also writers whose "
+        "domain lies before existing data), 1-7 samples per write, commits, closes, time-range deletes with bounds on / "
+        "between / outside samples or covering a whole earlier domain, clean reopen, synchronous GC (threshold 0 or "
+        "0.2), file rollover through small caps, channel deletion and re-creation, plus a malformed share (overlapping "
+        "writer, duplicate create, inverted delete). Every sample value encodes (channel, stamp). EVERY prefix of the "
+        "recorded mutation log is a crash image (quick: plus 3-9 torn lengths per write incl. record boundaries of the "
+        "index; thorough: every byte). Each image is reopened with cesium.Open (public API reads over [0,MAX) and "
+        "narrow reads [s,s+1) at probe stamps, then a follow-up write and the reads again) and with domain.Open per "
+        "directory (domain listing with bytes, seek/overlap probes, a follow-up write, listing and probes again). "
+        "Non-trivial = script whose log has >= 2 index persists and >= 1 of {delete, channel delete, GC file swap, "
+        "rollover, lazy writer}; distinct by hash.")
+TRUSTED = ["hook cesium/export_verif_c02.go (VerifC02GC = the private garbageCollect, one channel at a time)",
+           "recording wrapper around x/io/fs MemFS inside the harness (logs mkdir/create/write/writeat/truncate/rename/"
+           "remove in issue order under one mutex, rebuilds an image by replaying a log prefix path by path)",
+           "runner/props/C02.py derives every channel's domain-level history (commit ends, the byte offsets a delete "
+           "resolves, expected refusals) and the sample-level specification from the script: a wrong derivation shows "
+           "as a log mismatch or a false alarm, it cannot hide a difference",
+           "corpus/C02/known/*.json: the witnesses of the known findings, run by every check with the full monitor"]
+ASSUMES = ["process-crash model: completed file-system calls survive in issue order, a write may be torn at any byte "
+           "(as the property states; no fsync reordering, no sector effects)",
+           "Crash.legal (decidable, evaluated on every generated history): operations address an existing directory, "
+           "pointers fit the 26-byte record, a writer's file exists, a delete persists from a position before which "
+           "disk and memory agree, GC and delete leave pointers inside their files (C04's subject)",
+           "the file a writer appends to is handed to one writer at a time (file controller in-use flag), so the write "
+           "position of its handle is the end of the file",
            "one open writer per channel at a time in the scripts (control hand-over is C05's subject)"]
-PARTIAL = ("C02_crash_consistent_partial excludes the three windows in which the faithful model (and the code) lose "
-           "consistency: between a length-changing index Truncate and its WriteAt / a torn index WriteAt, between "
-           "Mkdir of a channel directory and the rename of meta.json, and between GC's first file rename and the "
-           "index rewrite (known findings F2, F16, F17). Sample-level reads through the unary/index layers are "
-           "observed by the monitor, not modelled.")
+PARTIAL = ("C02_crash_consistent_partial excludes exactly three windows, each refuted in the model and on the code "
+           "(known findings F2/F47 index Truncate-then-WriteAt and torn index WriteAt, F48 channel directory without "
+           "meta.json, F49 GC file swap before the index rewrite). Proved at the level of one channel directory "
+           "(decoded index + designated bytes + meta.json); sample-level reads through the unary/index layers and the "
+           "cross-channel order of one frame's commits are observed by the monitor on every image, not modelled "
+           "(F50, data channel persisted before its index channel, was found there and fixed).")
 
 GROUPS = [  # (index key, data keys, stamp base)
     (1, [2, 3], 0),
@@ -413,7 +425,7 @@ class Tables:
 
     def ent(self, e):
         d = e["d"]
-        ref = "None" if d == "!" else "Some %d%%nat" % self.intern(self.blobs, d)
+        ref = "None" if d.startswith("!") else "Some %d%%nat" % self.intern(self.blobs, d)
         return "(%s, %s, %s)" % (cZ(e["s"]), cZ(e["e"]), ref)
 
     def chobs(self, key, o):
@@ -462,6 +474,8 @@ _CACHE = {}
 
 
 def to_coq(case, r):
+    if r is None or r.get("log") is None:
+        return None
     try:
         it = Interp(case).run()
     except Bad:
@@ -525,6 +539,27 @@ def gen_script(rng, kind):
         ops.append({"op": "open", "w": w, "keys": keys, "start": start, "mode": mode})
         g["w"] = {"w": w, "mode": mode, "next": start, "first": True, "pend": False}
 
+    def open_before(g, allst):
+        """a writer whose whole domain lies before all existing data of the group"""
+        lo = min(allst)
+        room = lo - g["base"]
+        if room < 6:
+            return False
+        mode = rng.choice(["always", "lazy", "manual"])
+        start = g["base"] + rng.randrange(1, max(2, room - 4))
+        w = wid[0]
+        wid[0] += 1
+        ops.append({"op": "open", "w": w, "keys": g["keys"], "start": start, "mode": mode})
+        stamps = [start]
+        if start + 2 < lo and rng.random() < 0.6:
+            stamps.append(start + rng.choice([1, 2]))
+        ops.append({"op": "write", "w": w, "stamps": stamps})
+        g["segs"].append(stamps)
+        if mode == "manual":
+            ops.append({"op": "commit", "w": w})
+        ops.append({"op": "close", "w": w})
+        return True
+
     def write(g):
         n = rng.choice([1, 2, 2, 3, 4]) if kind != "rollover" else rng.choice([2, 3, 5, 7])
         s = g["w"]["next"]
@@ -565,6 +600,8 @@ def gen_script(rng, kind):
                 g["w"]["pend"] = False
             continue
         allst = [s for seg in g["segs"] for s in seg]
+        if allst and x < 0.08 and open_before(g, allst):
+            continue
         if x < 0.45 or not allst:
             open_writer(g)
             write(g)
@@ -574,6 +611,9 @@ def gen_script(rng, kind):
             a, b = pick(), pick()
             if a > b and rng.random() < 0.9:
                 a, b = b, a
+            if len(g["segs"]) >= 2 and rng.random() < 0.3:
+                seg = rng.choice(g["segs"][:-1])      # a whole earlier domain: the index shrinks
+                a, b = seg[0], seg[-1] + 1
             dk = [k for k in g["keys"][1:]]
             y = rng.random()
             if dk and y < 0.55:
@@ -590,7 +630,7 @@ def gen_script(rng, kind):
             for gg in groups:
                 gg["w"] = None
             ops.append({"op": "gc"})
-        elif x < 0.88 and kind == "chan":
+        elif x < (0.97 if kind == "chan" else 0.0) and x >= 0.72 and kind == "chan":
             dk = g["keys"][1:]
             if dk and rng.random() < 0.6:
                 k = rng.choice(dk)
@@ -696,19 +736,29 @@ def histogram(case, r):
 
 
 def neighbours(case, rng):
+    """a few cheaper relatives: drop one operation, switch one writer mode"""
     out = []
-    for i in range(len(case["ops"])):
+    idx = list(range(len(case["ops"])))
+    rng.shuffle(idx)
+    for i in idx[:4]:
         c = json.loads(json.dumps(case))
         del c["ops"][i]
         out.append(c)
-    for i, o in enumerate(case["ops"]):
-        if o["op"] == "open":
-            for m in ("always", "lazy", "manual"):
-                if m != o["mode"]:
-                    c = json.loads(json.dumps(case))
-                    c["ops"][i]["mode"] = m
-                    out.append(c)
-    return out
+    opens = [i for i, o in enumerate(case["ops"]) if o["op"] == "open"]
+    rng.shuffle(opens)
+    for i in opens[:2]:
+        c = json.loads(json.dumps(case))
+        c["ops"][i]["mode"] = rng.choice([m for m in ("always", "lazy", "manual") if m != case["ops"][i]["mode"]])
+        out.append(c)
+    return [c for c in out if finish_ok(c)]
+
+
+def finish_ok(case):
+    try:
+        Interp(case).run()
+        return True
+    except Bad:
+        return False
 
 
 def coq_eval(body, timeout=600):
@@ -741,6 +791,8 @@ TAGS = {1: "crash_in_channel_create_before_meta_rename",
 def tags(case, r):
     if r is None:
         return set()
+    if r.get("panic"):
+        return {"harness_panic"}
     t = to_coq(case, r)
     if t is None:
         return set()
@@ -756,6 +808,8 @@ def tags(case, r):
 
 def model_dump(case, r):
     t = to_coq(case, r)
+    if t is None:
+        return "no model evaluation: the harness returned no log (panic) or the script is not well-formed"
     return coq_eval("Definition the_case : case_t := %s.\nEval vm_compute in mismatch_detail the_case.\n"
                     "Eval vm_compute in viol_detail the_case." % t)[-6000:]
 
@@ -831,8 +885,30 @@ def consts(repo):
                 r1.numerator, r1.denominator, r2.numerator, r2.denominator))
 
 
-READY = False
-TECHNIQUE = "Coq proof (invariant over operation histories and log prefixes) + model/impl correspondence by vm_compute"
+READY = True
+TECHNIQUE = ("Coq proof (invariant over operation histories, per-operation cut analysis over log prefixes and torn "
+             "payloads, composition over the whole log) + model/impl correspondence by vm_compute")
 DESIGN_REF = "DESIGN.md §8 C02, §9 F2"
-LEVEL_TEXT = "see report"
-LEVEL_NOTE = "see report"
+LEVEL_TEXT = ("Machine-checked Coq theorems over an executable Gallina copy of the persistence protocol of one cesium "
+              "channel directory (file-system semantics of x/io/fs MemFS; data append, index Truncate-then-WriteAt with "
+              "the 26-byte pointer codec regenerated from the Go source, counter, meta tmp+rename, GC copy/rename/"
+              "rename/remove/index rewrite, channel delete, domain.Open's unvalidated load): for every operation "
+              "history, every prefix of the mutation log and every torn length of the next write outside three named "
+              "windows, what a restart serves equals the directory right before or right after the operation in "
+              "progress (C02_crash_consistent_partial, C02_operation_atomic); an operation that rewrote the index "
+              "leaves exactly the in-memory pointers on disk, all readable, and a restart loads them "
+              "(C02_persisted_is_durable, with which operations those are); the index rewrite and codec lemmas; and a "
+              "refutation with witness for each window (C02_*_refuted). The model is tied to /repo on every run: the "
+              "real cesium.DB runs scripts on a recording file system, the recorded mutation log must equal the model's "
+              "call for call (kind, file, offset, payload), and for every crash image the real domain.Open + listing + "
+              "probes + follow-up write must equal the model's recover; a decidable monitor judges the public-API "
+              "reads of every image (reopen succeeds, each channel equals an allowed commit state, no alien samples, "
+              "also after a follow-up write).")
+LEVEL_NOTE = ("Trusted: Coq kernel/vm_compute; hand-written model tied by correspondence, not translation; harness + "
+              "recording FS + hook VerifC02GC; the plug-in's derivation of domain-level histories. Theorems are closed "
+              "under the global context (no axioms) and stated under the decidable side conditions Crash.legal, "
+              "evaluated on every generated history. PARTIAL: three windows are excluded and are real defects "
+              "(known findings F2, F47, F48, F49, each with a witness case run on every check with the full monitor; "
+              "generated cases are judged on every image outside those windows). F50 (a frame's per-channel index "
+              "persists in map order) was found by the monitor and repaired by a fix: commit. Not modelled: the unary/"
+              "index sample layer and cross-channel atomicity (observed only), fsync/sector effects, descriptor limits.")
